@@ -22,7 +22,7 @@ QUERIES = ["a AND b", "a OR NOT b", "NOT NOT a", "n.x:d AND n.y:e", "n:(x:d AND 
 
 def plan(tier, seed):
     pl = Plan("C05", "exploration")
-    pl.cases = H.simplify_cases()
+    pl.cases = H.simplify_cases() + H.semantic_cases()
     pl.canaries = []
     pl.finite = [("C05-H/is_must-is_should table", H.kind_table), ("C05-H/yield_nested_children table", H.clash_table),
                  ("C05-H/json assembly of bool / nested clauses", H.ejson_table)]
